@@ -255,6 +255,7 @@ def run(ctx):
         pairs = [(n, md[n]['latest_version']) for n in names]
         multi = [k for k, v in md.items() if len(v['versions']) > 1]
         pairs += [(k, sorted(md[k]['versions'])[0]) for k in ctx.rng.sample(multi, 5)]
+        pairs += [(k, md[k]['latest_version']) for k in ('jgauss-dzp', 'jgauss-tzp1') if k in md]      # block-general contractions
     store.parallel(ctx, work_store, pairs)
     n = ctx.budget(240, 20000)
     store.parallel(ctx, work_generated, [ctx.seed * 100003 + i for i in range(n)])
